@@ -254,3 +254,42 @@ def _key_pinned(repo, cg, fd, node, key, table, table_name):
                 return False, 'call site %s:%d does not pin %s.%s' % (caller.qual, call.lineno, pname, attr)
         return True, 'pinned at %d call sites' % len(sites)
     return False, 'no dominating guard'
+
+
+def r06_h(ctx):
+    """a rolled-back look-ahead must not be able to re-enter the function that issues it"""
+    repo = ctx.repo
+    cg = callgraph.graph(ctx)
+    mod = repo.modules['reader']
+    rr = RuleResult('R06.h', 'no look-ahead call that is rolled back and re-read can recurse into the reader that issues '
+                    'it: otherwise every nesting level is parsed twice and parsing time doubles per level', floor=1)
+    n = 0
+    for fd in mod.functions.values():
+        for call in ast.walk(fd.node):
+            if not (isinstance(call, ast.Call) and isinstance(call.func, ast.Call) and isinstance(call.func.func, ast.Name)
+                    and call.func.args and isinstance(call.func.args[0], ast.Name)):
+                continue
+            factory = repo.resolve(mod, call.func.func.id)
+            target = repo.resolve(mod, call.func.args[0].id)
+            if not (factory and factory[0] == 'func' and target and target[0] == 'func'):
+                continue
+            e = engine(ctx)
+            if not e.peek_wrappers.get(factory[1]):
+                continue
+            n += 1
+            # constant arguments that stop the callee from reading nested material are honoured:
+            # (n_required, n_optional) == (0, 0) makes read_args return at once
+            consts = [a.value for a in call.args[1:3] if isinstance(a, ast.Constant)]
+            shallow = consts == [0, 0]
+            reach = cg.reachable([target[1]])
+            re_enters = fd in reach and not shallow
+            rr.ob(not re_enters, {'look_ahead': '%s: %s' % (fd.qual, norm(call)[:70]), 're_enters_issuer': re_enters})
+            if re_enters:
+                rr.fail(Finding('R06.h', 'reader', fd.qual, call, 'the look-ahead %s parses a whole command (with all its '
+                                'arguments, which can contain environments and items) and rolls it back before it is '
+                                'parsed again; since the look-ahead can reach %s itself, nesting depth d costs 2^d: '
+                                'mixed command/environment nesting of depth 40 does not terminate in practice'
+                                % (norm(call.func), fd.qual), line=call.lineno))
+    if n == 0:
+        raise AnalysisError('no look-ahead call found in the reader')
+    return rr
